@@ -23,15 +23,31 @@ where
     }
   }
 
+  // the first terminal is final: what late subscribers are handed must not be
+  // changed by calls that arrive after it
+  fn is_terminated(&self) -> bool {
+    self.last_error.read().unwrap().is_some()
+      || self.last_item.read().unwrap().is_none()
+  }
+
   pub fn next(&self, item: Item) {
+    if self.is_terminated() {
+      return;
+    }
     *self.last_item.write().unwrap() = Some(item.clone());
     self.subject.next(item);
   }
   pub fn error(&self, err: RxError) {
+    if self.is_terminated() {
+      return;
+    }
     *self.last_error.write().unwrap() = Some(err.clone());
     self.subject.error(err);
   }
   pub fn complete(&self) {
+    if self.is_terminated() {
+      return;
+    }
     *self.last_item.write().unwrap() = None;
     self.subject.complete();
   }
